@@ -25,6 +25,7 @@ import (
 	"time"
 
 	"github.com/logrange/logrange/api"
+	"github.com/logrange/logrange/api/rpc"
 	"github.com/logrange/logrange/pkg/cursor"
 	"github.com/logrange/logrange/pkg/model"
 	"github.com/logrange/logrange/pkg/model/tag"
@@ -32,6 +33,7 @@ import (
 	"github.com/logrange/range/pkg/records"
 	"github.com/logrange/range/pkg/records/chunk"
 	"github.com/logrange/range/pkg/records/journal"
+	"github.com/logrange/range/pkg/transport"
 	. "verifharness/common"
 )
 
@@ -467,6 +469,47 @@ type WaitCase struct {
 	Chain  int    `json:"chain"`  // further back-to-back waits (each woken by a write while asleep)
 	Limit  int    `json:"limit"`  // page limit of the waiting request (0: 10); values above QueryMaxLimit are clamped by the server
 	Rotate bool   `json:"rotate"` // the back-to-back waits write to the next partition in turn (every partition of the reader is written to when Chain >= Parts-1)
+	// Filter: the reader's query has a filter: "where" (WHERE msg CONTAINS "m"; the stored events do not match), "where-stored"
+	// (they do), "range-ahead" (RANGE ["1000000":]: the window lies ahead of everything stored when the wait starts: the chunk
+	// selector's cached status of the last chunk is "out"), "range-tail" (RANGE ["1":]: covers the stored tail), "where+range"
+	Filter string `json:"filter,omitempty"`
+	// Decoy: 1 / 2 = the steps with an even / odd index first append an event the filter rejects (the reader is woken, must go
+	// back to waiting, and must then return the matching event); 0 = no decoys
+	Decoy int `json:"decoy,omitempty"`
+	// DecoyOnly: a last wait (WaitTimeout 1 s) during which only a rejected event is appended: the answer must be empty
+	DecoyOnly bool `json:"decoy_only,omitempty"`
+	// Via: "" = backend.Querier, "rpc" = the rpc client (api/rpc ServerQuerier.query)
+	Via string `json:"via,omitempty"`
+}
+
+const rangeT0 = 1000000
+
+// writeEv appends one event with the timestamp and message given
+func writeEv(srv *Server, tags string, ts int64, msg string) error {
+	les := []model.LogEvent{{Timestamp: ts, Msg: []byte(msg)}}
+	t, err := tag.Parse(tags)
+	if err != nil {
+		return err
+	}
+	it := (&model.LogEventIterator{}).Wrap(t.Line(), model.NewTestLogEventsWrapper(les))
+	return srv.Partitions.Write(context.Background(), tags, it, false)
+}
+
+// queryVia: the request through the querier given, under a context that can be cancelled
+func queryVia(in api.Querier, req *api.QueryRequest) (chan qres, context.CancelFunc) {
+	ch := make(chan qres, 1)
+	ctx, cancel := context.WithCancel(context.Background())
+	rq := *req
+	go func() {
+		t0 := time.Now()
+		res := &api.QueryResult{}
+		err := in.Query(ctx, &rq, res)
+		if err == nil && res.Err != nil {
+			err = res.Err
+		}
+		ch <- qres{res, err, time.Since(t0)}
+	}()
+	return ch, cancel
 }
 
 // spins counts waiting queries that never returned (a reader that is woken but re-reads EOF spins between WaitNewData and
@@ -508,9 +551,32 @@ func runWait(srv *Server, wc WaitCase) ([]Case, error) {
 	id := nextId("w")
 	tagsOf := func(k int) string { return fmt.Sprintf("fan=%s,part=p%d", id, k) }
 	srcs := make([]string, wc.Parts)
+	where := wc.Filter == "where" || wc.Filter == "where-stored" || wc.Filter == "where+range"
+	ahead := wc.Filter == "range-ahead" || wc.Filter == "where+range"
+	clause := ""
+	if ahead {
+		clause += fmt.Sprintf(` RANGE ["%d":"4000000000000000000"]`, rangeT0)
+	} else if wc.Filter == "range-tail" {
+		clause += ` RANGE ["1":"4000000000000000000"]`
+	}
+	if where {
+		clause += ` WHERE msg CONTAINS "m"`
+	}
+	storedMatch := wc.Filter == "" || wc.Filter == "where-stored" || wc.Filter == "range-tail"
 	for k := 0; k < wc.Parts; k++ {
-		if err := writeN(srv, tagsOf(k), 0, wc.N0); err != nil {
-			return nil, err
+		for i := 0; i < wc.N0; i++ {
+			msg := strconv.Itoa(i)
+			if wc.Filter == "where-stored" {
+				msg = "m" + msg
+			}
+			if err := writeEv(srv, tagsOf(k), int64(i+1), msg); err != nil {
+				return nil, err
+			}
+		}
+		if wc.N0 == 0 {
+			if err := writeN(srv, tagsOf(k), 0, 0); err != nil {
+				return nil, err
+			}
 		}
 		s, err := srcId(srv, tagsOf(k))
 		if err != nil {
@@ -520,13 +586,56 @@ func runWait(srv *Server, wc WaitCase) ([]Case, error) {
 		syncSrc(srv, s)
 	}
 	// position at the end of everything: read it all once
-	req := &api.QueryRequest{Query: "SELECT FROM fan=" + id, Limit: 1000}
+	req := &api.QueryRequest{Query: "SELECT FROM fan=" + id + clause, Limit: 1000}
 	r0, err := srv.Querier.Query(context.Background(), req)
 	if err != nil && err != io.EOF {
 		return nil, err
 	}
-	if len(r0.Events) != wc.Parts*wc.N0 {
-		return nil, fmt.Errorf("wait case: read %d events, %d written", len(r0.Events), wc.Parts*wc.N0)
+	wantStored := 0
+	if storedMatch {
+		wantStored = wc.Parts * wc.N0
+	}
+	if len(r0.Events) != wantStored {
+		return nil, fmt.Errorf("wait case (%q): read %d events, %d stored ones match", clause, len(r0.Events), wantStored)
+	}
+	var in api.Querier = backendQ{srv}
+	if wc.Via == "rpc" {
+		cl, err := rpc.NewClient(transport.Config{ListenAddr: srv.Addr})
+		if err != nil {
+			return nil, err
+		}
+		defer func() { go cl.Close() }()
+		in = cl
+	}
+	hot := make([]bool, wc.Parts) // the partition holds an event inside the RANGE
+	decoys := 0
+	stepNo := 0
+	// what the matching event of this step looks like, and the decoy (an event the filter rejects), if this filter and
+	// this partition allow one without making the partition's timestamps go back
+	matchEv := func(n int) (int64, string) {
+		ts, msg := int64(n+1), strconv.Itoa(n)
+		if ahead {
+			ts += rangeT0
+		}
+		if where {
+			msg = "m" + msg
+		}
+		return ts, msg
+	}
+	canDecoy := func(t int) bool {
+		return where || (wc.Filter == "range-ahead" && !hot[t])
+	}
+	decoyEv := func(n int) (int64, string) {
+		decoys++
+		ts, _ := matchEv(n)
+		if wc.Filter == "range-ahead" {
+			ts = int64(wc.N0 + decoys) // older than the range
+		}
+		msg := "x" + strconv.Itoa(decoys)
+		if !where {
+			msg = "d" + strconv.Itoa(decoys)
+		}
+		return ts, msg
 	}
 	next := r0.NextQueryRequest
 	next.WaitTimeout = waitTimeoutS
@@ -542,6 +651,24 @@ func runWait(srv *Server, wc WaitCase) ([]Case, error) {
 			return errStop
 		}
 		tsrc := srcs[target]
+		dec := wc.Decoy != 0 && stepNo%2 == wc.Decoy-1 && canDecoy(target) && scen != "WsNone"
+		if scen == "WsDecoy" {
+			dec = true
+		}
+		stepNo++
+		out0 := wc.Filter == "range-ahead" && !hot[target] && wc.N0 > 0 // the selector's status of the last chunk is "out"
+		writeMatching := func() error {
+			ts, msg := matchEv(written)
+			if ahead {
+				hot[target] = true
+			}
+			return writeEv(srv, tagsOf(target), ts, msg)
+		}
+		writeDecoy := func() error {
+			ts, msg := decoyEv(written)
+			return writeEv(srv, tagsOf(target), ts, msg)
+		}
+		var early *qres // the request came back after the rejected event alone
 		nreq := next
 		nreq.WaitTimeout = timeout
 		gs := make([]*gate, wc.Parts)
@@ -559,12 +686,17 @@ func runWait(srv *Server, wc WaitCase) ([]Case, error) {
 			gMu.Unlock()
 		}()
 		if scen == "WsBefore" {
-			if err := writeN(srv, tagsOf(target), written, 1); err != nil {
+			if dec {
+				if err := writeDecoy(); err != nil {
+					return err
+				}
+			}
+			if err := writeMatching(); err != nil {
 				return err
 			}
 			syncSrc(srv, tsrc)
 		}
-		ch, cancel := queryC(srv, &nreq)
+		ch, cancel := queryVia(in, &nreq)
 		defer cancel()
 		var tWrite time.Time
 		if scen != "WsBefore" {
@@ -587,30 +719,67 @@ func runWait(srv *Server, wc WaitCase) ([]Case, error) {
 				}
 			}
 		}
+		// rearrive: the reader, woken by the rejected event alone, is back in WaitNewData (its waiter goroutines reached the
+		// schedule point again); false: the request came back instead
+		rearrive := func() (bool, error) {
+			select {
+			case <-gs[target].arrived:
+				return true, nil
+			case r := <-ch:
+				early = &r
+				return false, nil
+			case <-time.After(deadline):
+				return false, fmt.Errorf("wait case %s: after the rejected event the reader neither went back to waiting nor returned", scen)
+			}
+		}
 		switch scen {
 		case "WsHeld":
 			// readable between the position capture and the check-and-register
-			writeN(srv, tagsOf(target), written, 1)
+			if dec {
+				writeDecoy()
+			}
+			writeMatching()
 			syncSrc(srv, tsrc)
 			tWrite = time.Now()
 			close(gs[target].release)
-		case "WsSleeping":
+		case "WsSleeping", "WsDecoy":
 			// let the waiter register and block (no observable for it; if it has not yet, this is WsHeld)
 			time.Sleep(20 * time.Millisecond)
-			writeN(srv, tagsOf(target), written, 1)
-			syncSrc(srv, tsrc)
-			tWrite = time.Now()
+			ok := true
+			if dec {
+				// the rejected event alone first: the reader is woken, finds nothing it may return, and must wait again
+				writeDecoy()
+				syncSrc(srv, tsrc)
+				var err error
+				if ok, err = rearrive(); err != nil {
+					return err
+				}
+			}
+			if ok && scen != "WsDecoy" {
+				writeMatching()
+				syncSrc(srv, tsrc)
+				tWrite = time.Now()
+			}
 		case "WsLateFlush":
-			writeN(srv, tagsOf(target), written, 1)
+			if dec {
+				writeDecoy()
+			}
+			writeMatching()
 			close(gs[target].release)
 			time.Sleep(20 * time.Millisecond)
 			syncSrc(srv, tsrc)
 			tWrite = time.Now()
 		}
 		var r qres
+		var tmo <-chan time.Time = time.After(deadline + time.Duration(timeout)*time.Second)
+		if early != nil {
+			pre := make(chan qres, 1)
+			pre <- *early
+			ch = pre
+		}
 		select {
 		case r = <-ch:
-		case <-time.After(deadline + time.Duration(timeout)*time.Second):
+		case <-tmo:
 			// the query neither returned the event nor timed out: a verdict (e.g. a reader that is woken but re-reads EOF
 			// spins between WaitNewData and Get). It is cancelled; the cancelled request must then come back.
 			atomic.AddInt32(&spins, 1)
@@ -642,14 +811,20 @@ func runWait(srv *Server, wc WaitCase) ([]Case, error) {
 		nev := len(r.res.Events)
 		woken := nev > 0
 		var v *Violation
-		if scen == "WsNone" {
+		if scen == "WsDecoy" {
+			if woken {
+				v = &Violation{Class: "reader-returned-rejected-event", Detail: fmt.Sprintf("%s (%s) over %d partition(s): only an event the filter rejects was written, the waiting query returned %d events (first %q)", scen, wc.Filter, wc.Parts, nev, r.res.Events[0].Message)}
+			}
+		} else if early != nil {
+			v = &Violation{Class: "reader-woken-by-rejected-event-returns", Detail: fmt.Sprintf("%s (%s) over %d partition(s): an event the filter rejects was appended to partition %d during the wait: the query returned %d events after %v instead of waiting on", scen, wc.Filter, wc.Parts, target, nev, r.dur)}
+		} else if scen == "WsNone" {
 			if woken {
 				v = &Violation{Class: "reader-returned-unwritten", Detail: fmt.Sprintf("nothing was written, the waiting query returned %d events", nev)}
 			} else if r.dur < time.Duration(timeout)*time.Second-50*time.Millisecond {
 				v = &Violation{Class: "reader-empty-before-timeout", Detail: fmt.Sprintf("empty result after %v with WaitTimeout %ds", r.dur, timeout)}
 			}
 		} else {
-			want := strconv.Itoa(written)
+			_, want := matchEv(written)
 			switch {
 			case !woken:
 				v = &Violation{Class: "reader-not-woken", Detail: fmt.Sprintf("%s over %d partition(s): the event written to partition %d was not returned within the %d s time-out (query took %v)", scen, wc.Parts, target, timeout, r.dur)}
@@ -669,8 +844,37 @@ func runWait(srv *Server, wc WaitCase) ([]Case, error) {
 		} else {
 			coq = GApp("KFan", GNat(wc.Parts), GNat(target), GNat(written), scen, GBool(woken), GNat(nev))
 		}
-		out = append(out, Case{Coq: coq, Replay: map[string]interface{}{"kind": "wait", "wait": wc}, NonTrivial: scen != "WsBefore" && scen != "WsNone" || wc.Parts > 1,
-			Oracle: v, Stream: "wait", Key: fmt.Sprintf("%s/%d/%s", id, len(out), scen), Tags: []string{"wait:" + scen, fmt.Sprintf("wait-parts:%d", wc.Parts)}})
+		tg := []string{"wait:" + scen, fmt.Sprintf("wait-parts:%d", wc.Parts), "wait-filter:" + map[string]string{"": "none"}[wc.Filter] + wc.Filter, "wait-via:" + map[string]string{"": "backend", "rpc": "rpc"}[wc.Via]}
+		if dec {
+			tg = append(tg, "wait-decoy")
+		}
+		if scen != "WsDecoy" {
+			out = append(out, Case{Coq: coq, Replay: map[string]interface{}{"kind": "wait", "wait": wc}, NonTrivial: scen != "WsBefore" && scen != "WsNone" || wc.Parts > 1,
+				Oracle: v, Stream: "wait", Key: fmt.Sprintf("%s/%d/%s", id, len(out), scen), Tags: tg})
+		}
+		if wc.Filter != "" && scen != "WsNone" {
+			// the filtered reader of the model on the records appended during this wait
+			fl := make([]string, wc.Parts)
+			for k := range fl {
+				fl[k] = "[]"
+				if k == target {
+					switch {
+					case scen == "WsDecoy":
+						fl[k] = "[false]"
+					case dec:
+						fl[k] = "[false; true]"
+					default:
+						fl[k] = "[true]"
+					}
+				}
+			}
+			var fv *Violation
+			if scen == "WsDecoy" {
+				fv = v
+			}
+			out = append(out, Case{Coq: GApp("KFilt", GBool(out0), GList(fl), GBool(woken)), Replay: map[string]interface{}{"kind": "wait", "wait": wc}, NonTrivial: true,
+				Oracle: fv, Stream: "wait-filter", Key: fmt.Sprintf("%s/%d/%s/filt", id, len(out), scen), Tags: tg})
+		}
 		if r.res != nil {
 			next = r.res.NextQueryRequest
 		}
@@ -700,6 +904,16 @@ func runWait(srv *Server, wc WaitCase) ([]Case, error) {
 			return nil, err
 		}
 	}
+	if wc.DecoyOnly && wc.Scen != "WsNone" {
+		if wc.Rotate {
+			target = (target + 1) % wc.Parts
+		}
+		if canDecoy(target) {
+			if err := step("WsDecoy", 1); err != nil && err != errStop {
+				return nil, err
+			}
+		}
+	}
 	return out, nil
 }
 
@@ -717,6 +931,20 @@ func genWait(r *Rng) WaitCase {
 		wc.Chain = r.PickInt(0, 0, 1, 2, 3)
 	}
 	wc.Limit = r.PickInt(0, 0, 1, 10, 9999, 10000, 10001, 50000)
+	if r.Chance(1, 2) {
+		wc.Filter = r.PickStr("where", "where", "where-stored", "range-ahead", "range-ahead", "range-tail", "where+range")
+		wc.Decoy = r.PickInt(0, 1, 2)
+		wc.DecoyOnly = r.Chance(1, 4)
+		if wc.Filter == "range-ahead" && r.Chance(2, 3) && wc.N0 == 0 {
+			wc.N0 = 1 // a last chunk with events older than the range
+		}
+		if wc.Limit == 1 {
+			wc.Limit = 0
+		}
+	}
+	if r.Chance(1, 4) {
+		wc.Via = "rpc"
+	}
 	if wc.Parts >= 3 && wc.Scen != "WsNone" && r.Chance(1, 2) {
 		// every partition of the reader in turn (with >= 3 partitions the cursor has nested mixers)
 		wc.Rotate = true
@@ -813,7 +1041,7 @@ func runRearm(srv *Server, rc RearmCase) (*Case, error) {
 
 // ---------------------------------------------------------------- main
 
-const rule = "read: journal iterator read to its end in 1-3 rounds over 0-8 readable records from a random start position, with 0-3 append+flush injections placed before random looks at the confirmed count and 0-3 records appended between rounds (non-trivial iff an injection fell inside a round); wait: Query(WaitTimeout) at the end of 1-4 partitions with the write placed before the query / between position capture and check-and-register (schedule hook) / after the waiter is asleep / written while held and flushed after registration / never, followed by 0-3 back-to-back waits (non-trivial iff the write races the wait or several partitions are under the reader); rearm: pipe worker's 10 s wait expiring with a notification pending; select: api.Select in stream mode from tail through the rpc client, 2-4 rounds with records appended in the gap before a request / while it waits, up to two empty (timed-out) rounds (non-trivial iff an empty round is followed by appended records)"
+const rule = "read: journal iterator read to its end in 1-3 rounds over 0-8 readable records from a random start position, with 0-3 append+flush injections placed before random looks at the confirmed count and 0-3 records appended between rounds (non-trivial iff an injection fell inside a round); wait: Query(WaitTimeout) at the end of 1-4 partitions with the write placed before the query / between position capture and check-and-register (schedule hook) / after the waiter is asleep / written while held and flushed after registration / never, followed by 0-3 back-to-back waits (non-trivial iff the write races the wait or several partitions are under the reader); half of the wait chains and select streams with a WHERE and/or RANGE filter (events the filter rejects appended before the matching one), a quarter through the rpc querier; rearm: pipe worker's 10 s wait expiring with a notification pending; select: api.Select in stream mode from tail through the rpc client, 2-4 rounds with records appended in the gap before a request / while it waits, up to two empty (timed-out) rounds (non-trivial iff an empty round is followed by appended records)"
 
 type replayT struct {
 	Kind  string     `json:"kind"`
@@ -910,13 +1138,15 @@ func main() {
 		// streams whose partition is created by the first record appended (after an empty wait / before the first request
 		// is answered ...). The backend request comes first: if it never returns, the others are not made.
 		sjobs = append(sjobs,
+			SelectCase{N0: 2, Filter: "range-ahead", Decoy: true, Rounds: [][2]int{{0, 0}, {0, 1}, {1, 0}, {0, 1}}},
+			SelectCase{N0: 1, Filter: "where", Decoy: true, Via: "backend", Rounds: [][2]int{{0, 1}, {0, 0}, {2, 0}}},
 			SelectCase{NoPart: true, Via: "backend", Rounds: [][2]int{{0, 0}, {2, 0}, {0, 1}}},
 			SelectCase{NoPart: true, Rounds: [][2]int{{0, 0}, {1, 0}, {0, 0}}},
 			SelectCase{NoPart: true, Rounds: [][2]int{{0, 0}, {0, 0}, {1, 0}, {0, 1}, {1, 0}}},
 			SelectCase{NoPart: true, Via: "backend", Rounds: [][2]int{{1, 0}, {0, 1}}},
 		)
-		sels = append(sels, make([]*Case, 4)...)
-		serr = append(serr, make([]error, 4)...)
+		sels = append(sels, make([]*Case, 6)...)
+		serr = append(serr, make([]error, 6)...)
 		empties := make([]*Case, 2)
 		eerr := make([]error, 2)
 		wg.Add(1)
@@ -973,6 +1203,13 @@ func main() {
 		jobs = append([]WaitCase{
 			{Parts: 3, Target: 0, N0: 1, Scen: "WsSleeping", Chain: 3, Rotate: true},
 			{Parts: 4, Target: 1, N0: 0, Scen: "WsHeld", Chain: 4, Rotate: true},
+			// filtered readers: RANGE ahead of a stored chunk (the selector's cached status of the chunk is "out" when the first
+			// event inside the range arrives), WHERE over two partitions (a filter above a mixer) with rejected events first,
+			// WHERE + RANGE over three partitions through the rpc querier
+			{Parts: 1, Target: 0, N0: 2, Scen: "WsSleeping", Chain: 2, Filter: "range-ahead", Decoy: 2},
+			{Parts: 2, Target: 0, N0: 1, Scen: "WsSleeping", Chain: 3, Rotate: true, Filter: "where", Decoy: 1, DecoyOnly: true},
+			{Parts: 2, Target: 1, N0: 1, Scen: "WsHeld", Chain: 2, Rotate: true, Filter: "range-ahead"},
+			{Parts: 3, Target: 0, N0: 1, Scen: "WsSleeping", Chain: 3, Rotate: true, Filter: "where+range", Decoy: 2, Via: "rpc"},
 		}, jobs...)
 		nw = len(jobs)
 		res := make([][]Case, nw)
